@@ -1,0 +1,14 @@
+//go:build verif
+
+package limitparallelrequests
+
+// VerifQueues returns, per endpoint key, the number of requests admitted for the endpoint
+// and the number of requests waiting in its FIFO (verification harness only).
+func (c *LimitParallelRequests) VerifQueues() map[uint64][2]int64 {
+	out := make(map[uint64][2]int64)
+	c.endpointQueues.Range2(func(key uint64, value *endpointQueue) bool {
+		out[key] = [2]int64{value.processedCounter, int64(len(value.orderedRequest))}
+		return true
+	})
+	return out
+}
